@@ -3,7 +3,10 @@
 Proof: coq/theories/Proofs/CollidersProofs.v + Props/C14.v about the state machine
 Model/Colliders.v (attributes with layout tags, numba signature layouts and the
 "stores a contiguous copy" flags re-read from the sources into Gen/CollidersTables.v by
-harness/tables_c14.py before the build).
+harness/tables_c14.py before the build; the same reader compares every method of every
+collider class and of the mesh functor as a whole with the text the model transliterates and
+scans the callees for layout sensitivity / side effects - a refused source => all theorems
+reported broken, nothing counted, the stale tables only serve the search).
 
 Tie to the code, on every run:
   * property oracle (independent of the model): EVERY query of the history is repeated on a NEW
